@@ -66,9 +66,11 @@ func (ctx *Context) FindRedirects() {
 			ctx.Fatalf("failed to parse %s: %v", file, err)
 		}
 
-		cmap := ast.NewCommentMap(fset, f, f.Comments)
-		cmap.Filter(f)
-		for node := range cmap {
+		// Iterate over the declarations in source order
+		// (rather than over a comment map, whose iteration
+		// order is random) so that the redirect table, and
+		// with it the kernel image, is reproducible.
+		for _, node := range f.Decls {
 			decl, ok := node.(*ast.FuncDecl)
 			if !ok || decl.Doc == nil {
 				continue
